@@ -2,3 +2,4 @@ pub mod c08;
 pub mod c12;
 pub mod c07;
 pub mod c17;
+pub mod c16;
